@@ -27,14 +27,21 @@ let parse_line (l : string) : line =
   | "DEADLOCK" :: _ -> Dead | "INFEASIBLE" :: _ -> Infeasible
   | _ -> Other l
 
+let max_trace_lines = 400000
+
 let run_harness ~maxt ~policy ~seed ~spurious ~program ~(forced : int list) : string * line list =
-  let cmd = Printf.sprintf "%s %d %s %d %d %s %s 2>/dev/null" (Filename.quote (bin ())) maxt policy seed (if spurious then 1 else 0)
+  (* bounded: a program of the pool that never finishes (a changed pool that keeps scheduling steps for ever) is cut off
+     after max_trace_lines lines - the unchanged pool needs a few thousand at most - and after 120 s of wall clock *)
+  let cmd = Printf.sprintf "timeout -s KILL 120 %s %d %s %d %d %s %s 2>/dev/null" (Filename.quote (bin ())) maxt policy seed (if spurious then 1 else 0)
       (Filename.quote program) (String.concat " " (List.map string_of_int forced)) in
   let ic = Unix.open_process_in cmd in
   let lines = ref [] in
-  (try while true do lines := parse_line (input_line ic) :: !lines done with End_of_file -> ());
+  let nlines = ref 0 in
+  (try while !nlines < max_trace_lines do lines := parse_line (input_line ic) :: !lines; incr nlines done with End_of_file -> ());
+  let runaway = !nlines >= max_trace_lines in
   let st = Unix.close_process_in ic in
-  ((match st with Unix.WEXITED 0 -> "ok" | Unix.WEXITED 3 -> "deadlock" | Unix.WEXITED 4 -> "infeasible"
+  ((match st with _ when runaway -> "runaway" | Unix.WEXITED 137 -> "runaway"
+                | Unix.WEXITED 0 -> "ok" | Unix.WEXITED 3 -> "deadlock" | Unix.WEXITED 4 -> "infeasible"
                 | Unix.WEXITED c -> if c >= 128 then "abort" else Printf.sprintf "exit%d" c
                 | Unix.WSIGNALED _ -> "abort" | Unix.WSTOPPED _ -> "stopped"), List.rev !lines)
 
@@ -113,6 +120,7 @@ let replay ~maxt ~program (lines : line list) : string option =
 let spec_check (status : string) ~maxt ~program (lines : line list) : string option =
   if status = "deadlock" then Some "deadlock: no thread can run although the program has not finished (a close/destroy call would hang)"
   else if status = "abort" then Some "an assertion of threadpool.c failed"
+  else if status = "runaway" then Some (Printf.sprintf "the program does not finish: more than %d scheduling steps or 120 s (a close/destroy call would never return)" max_trace_lines)
   else if status <> "ok" then None
   else begin
     let disp = List.filter_map (function Disp (k, j) -> Some (k, j) | _ -> None) lines in
@@ -169,6 +177,8 @@ let run ~tier ~seed ~only acc =
     incr idx;
     (* every single preemption *)
     let steps = List.filter_map (function Step (k, t, _, _, en) -> Some (k, t, en) | _ -> None) base in
+    (* a run that was cut off (reported above) is not used as a base for preemptions *)
+    let steps = if List.length steps > 20000 then [] else steps in
     let chosen = List.map (fun (_, t, _) -> t) steps in
     let small = List.length steps <= 140 in
     List.iter (fun (k, t, en) ->
